@@ -35,10 +35,10 @@ CHECKS = {
          'decides: on every path through up to 2 (thorough: 3) signature characters the k-th decoded argument is read from slot k of the argument and type arrays through the union member of the k-th type code (digits and ? consume no slot); code table = {iufsonah}; per code the appended argument term (constructor, value source, null guards, fixed-point formula, array element type) equals what log mode decodes; call-event role table of received/sent_message (closure frame, sender id, interface, direction, new-id flag per calling function); breakpoint registry. NOT decided: what GDB evaluates; the true element type of arrays. Nothing of GDB mode is executed.'),
  'C13': ('call structure of main() over all Mode members; provenance of argv/env/stderr/exit status; read discipline of the parser',
          'decides: the three log modes feed one ConnectionManager/Controller/Output through into_sink once, parser reads by readline() only, child started with verbatim argv, copied env + WAYLAND_DEBUG=1, stdout untouched, exit status passed through. NOT decided: chunking/timing as observable equality (delegated to TextIOWrapper); join timeout.'),
- 'C14': ('finite-domain evaluation of character classes; shared constants of encoder/decoder; identity chains',
-         'decides: label letters are within what the matcher lexer accepts and disjoint from digits, both sides use the unmodified (id, generation) pair and the same radix/alphabet, connection matcher sees the displayed name. NOT decided: bijectivity of the base-26 arithmetic (needs induction or execution); bare-object selection semantics (C05).'),
- 'C15': ('key-presence analysis over all paths; scenario evaluation; exception escape set of the destroy breakpoint',
-         'decides: no dict subscript/del on the connection tables without the key shown present, open iff address unknown, close forgets the address and is forwarded, thread mismatch only warns, no KeyError/RuntimeError escapes stop(). NOT decided: GDB/libwayland behaviour.'),
+ 'C14': ('finite-domain evaluation of character classes; folding of the encoder / decoder path terms on every index / label of up to 2 (thorough: 3) letters; identity chains',
+         'decides: label letters are within what the matcher lexer accepts and disjoint from digits, both sides use the unmodified (id, generation) pair, the encoder is the bijective base-26 numeration a..z, aa.. and the decoder its inverse for every label of up to 2 (thorough: 3) letters (terms of the paths folded on constants; nothing executed), connection matcher sees the displayed name, names from one counter advanced by exactly one. NOT decided: labels longer than that (needs induction); bare-object selection semantics (C05).'),
+ 'C15': ('key-presence analysis over all paths; scenario evaluation; exception escape set of the destroy breakpoint; routing / reopen rules of the connection manager lifted (C04.2, C04.4)',
+         'decides: no dict subscript/del on the connection tables without the key shown present, open iff address unknown, close forgets the address and is forwarded, thread mismatch only warns, no KeyError/RuntimeError escapes stop(), behind the plugin a message reaches the connection open at its address now and a re-opened address is a new connection. NOT decided: GDB/libwayland behaviour.'),
  'C17': ('enumeration of ESC literals and switch reads; symbolic-string paths of color(); abstract evaluation of colour codes + automata inclusion in no_color; taint into layout; sanitiser ordering',
          'decides: only color() emits escapes, off => text itself, every code is [0-9;]* and removable by no_color, no len/ljust/slicing of coloured text, pasted text is stripped of colour before tokenising. NOT decided: escape sequences arriving in the input.'),
  'C18': ('exception-flow closures over the RTA call graph with a conditional triage table; decoder configuration of the input streams; abstract-method completeness',
